@@ -17,6 +17,13 @@ theorem C01_fail_consumes_nothing (E : Env) (f : Nat) (e : Expr) (s s' : PState)
   rw [h] at this
   exact this.failOff rfl
 
+/-- the same with the whole savepoint (line, column, current rune): the parser is exactly where it was -/
+theorem C01_fail_restores_position (E : Env) (f : Nat) (e : Expr) (s s' : PState) (v : Val)
+    (hm : MemoOK s) (hp : PtInv E s) (h : parseExpr E f e s = .done v false s') : s'.pt = s.pt := by
+  have hfr := parseExpr_frame E f e s hm
+  rw [h] at hfr
+  exact Reach.unique (hfr.stk.ptinv hp).1 hp.1 (hfr.failOff rfl)
+
 /-- **C01 (b)** `&e` and `!e` consume nothing whether they match or not. -/
 theorem C01_predicates_consume_nothing (E : Env) (f : Nat) (id : Nat) (e1 : Expr) (s s' : PState)
     (v : Val) (ok : Bool)
